@@ -140,6 +140,10 @@ EndOfCall(m, r) ==
         f03 == IF m.repLost >= 0 /\ m.repLost # m.expLost
                THEN << Flag("C03", "counts reported in this call differ from the sequence numbers skipped by the events it delivered") >>
                ELSE << >>
+        \* C19 says so of Close in particular: every buffered event once, in order, with loss accounting
+        f19loss == IF r.op = "close" /\ (m.repLost < 0 \/ m.repLost # m.expLost)
+                   THEN << Flag("C19", "Close did not account correctly for the sequence numbers skipped by the events it delivered") >>
+                   ELSE << >>
         isPush == r.op \in {"push", "pushraw"} /\ r.ret = "ok"
         f10 == IF isPush /\ ~m.closed /\ Cardinality(DOMAIN m.und) > m.max
                THEN << Flag("C10", "more than maxInFlight events buffered after PushMessage returned") >>
@@ -168,7 +172,7 @@ EndOfCall(m, r) ==
           ELSE IF r.op = "pushraw" /\ r.ret = "err" /\ Len(r.cbs) > 0 THEN << Flag("C01", "callback caused by a rejected Push") >>
           ELSE << >>
         fpanic == IF r.ret = "panic" THEN << Flag("C01", "call panicked") >> ELSE << >>
-    IN  [m EXCEPT !.flags = @ \o f03 \o f10 \o f19a \o f19b \o fpanic,
+    IN  [m EXCEPT !.flags = @ \o f03 \o f19loss \o f10 \o f19a \o f19b \o fpanic,
                   !.closed = @ \/ (r.op = "close" /\ r.ret = "ok")]
 
 StepCall(m, r) == EndOfCall(ApplyCbs(ApplyOp(m, r), r, r.cbs, 1), r)
